@@ -43,8 +43,11 @@ def run(ctx, facts):
     ctx.rule("N3", "retain / retain_force call the predicate under no lock", floor=2)
     ctx.rule("N4", "the retain / retain_force methods of the reference wrappers and of the set delegate to the map method of the same name "
                    "(rule L6 of C01): a wrapper that forwards retain_force to retain silently keeps entries whose value changed", floor=4)
-    from .rules_c01 import rule_l6
+    from .rules_c01 import rule_l6, rule_l14
     rule_l6(ctx, facts, rule="N4", only_ops=("retain", "retain_force"))
+    ctx.rule("N5", "the removal routine behind retain / retain_force tries again when the bin it locked is no longer the head (rule L14 of C01): "
+                   "giving up there leaves a key that the predicate rejected in the map", floor=2)
+    rule_l14(ctx, facts, rule="N5", only=("map::HashMap::replace_node",))
     # the compare-and-remove routine(s): bodies with an `observed value` parameter (Option<Shared<V>>); recognised by type so that a
     # rename or a wrapper/inner split does not blind the rule
     def obs_param(b):
